@@ -427,4 +427,38 @@ theorem step_working (ids : List String) (p : Pool) (new : List Nat) (b : Nat) :
   · intro x
     simp [List.mem_filter]
 
+/-! ### iteration order -/
+
+theorem pySum_perm {xs ys : List Rat} (h : xs.Perm ys) : pySum xs = pySum ys := by
+  induction h with
+  | nil => rfl
+  | cons x _ ih => simp only [pySum_cons, ih]
+  | swap x y l => simp only [pySum_cons]; grind
+  | trans _ _ ih1 ih2 => exact ih1.trans ih2
+
+theorem perm_nil_iff {α : Type} {xs ys : List α} (h : xs.Perm ys) : xs = [] ↔ ys = [] := by
+  constructor
+  · intro e; subst e; exact h.nil_eq.symm ▸ rfl
+  · intro e; subst e; exact h.symm.nil_eq.symm ▸ rfl
+
+/-- The calculators iterate over a Python `set`: the order of the batteries is irrelevant. -/
+theorem socOf_perm {bs bs' : List CBat} (h : bs.Perm bs') : socOf bs = socOf bs' ∧ capOf bs = capOf bs' := by
+  have hq : (bs.filterMap CBat.socArgs).Perm (bs'.filterMap CBat.socArgs) := h.filterMap _
+  have hc : (bs.filterMap CBat.capArgs).Perm (bs'.filterMap CBat.capArgs) := h.filterMap _
+  constructor
+  · rw [socOf_eq, socOf_eq]
+    unfold Qs totalX100 usedX100
+    rw [pySum_perm (hq.map weight), pySum_perm (hq.map fun a => weight a * scaledSoc a)]
+    by_cases e : bs.filterMap CBat.socArgs = []
+    · simp [e, (perm_nil_iff hq).mp e]
+    · have e' : ¬ bs'.filterMap CBat.socArgs = [] := fun x => e ((perm_nil_iff hq).mpr x)
+      simp [e, e']
+  · rw [capOf_eq, capOf_eq]
+    unfold Qc
+    rw [pySum_perm (hc.map _)]
+    by_cases e : bs.filterMap CBat.capArgs = []
+    · simp [e, (perm_nil_iff hc).mp e]
+    · have e' : ¬ bs'.filterMap CBat.capArgs = [] := fun x => e ((perm_nil_iff hc).mpr x)
+      simp [e, e']
+
 end PoolSoc
